@@ -340,7 +340,7 @@ def run(F, R, tier):
             if n.get("k") == "MethodCall" and n["name"] in ("insert", "get_mut") and field_of(n["recv"]) == "module_slots":
                 n_w += 1
                 key = peel_value(n["args"][0])
-                ok = key.get("k") == "Field" and key["field"] == "specifier" and peel(key["e"]).get("lid") == item["lid"]
+                ok = any(k_.get("k") == "Field" and k_["field"] == "specifier" and peel(k_["e"]).get("lid") == item["lid"] for y_ in through_locals(n["args"][0]) for k_ in [peel_value(y_)])
                 if not ok and key.get("res") == "local":
                     for g in guards_at(F, n, stop_at=lp[0]):
                         if g.kind == "cond" and g.pol and g.node.get("k") == "Binary" and g.node["op"] == "==":
